@@ -6,17 +6,39 @@ def J(pkg, harness, params, **opts):
 
 
 def c01_jobs(tier):
-    jobs = []
-    nmax = 24 if tier == 'quick' else 64
-    for n in range(1, nmax + 1):
+    q = tier == 'quick'
+    jobs = [J('root', 'H_C01_selectM', [])]
+    for n in range(1, (24 if q else 64) + 1):
         jobs.append(J('root', 'H_C01_monobit', [n]))
+    for nb in range(1, (4 if q else 8) + 1):
+        jobs.append(J('root', 'H_C01_monobit_bytes', [nb]))
+    nmax = 20 if q else 40
+    for n in range(2, nmax + 1):
+        for m in range(2, n + 1):
+            if q and m > 12 and m not in (n, n - 1):
+                continue
+            jobs.append(J('root', 'H_C01_blockfreq', [n, m]))
+    for n in (10, 19, 20, 25, 31) if q else range(10, 64):
+        jobs.append(J('root', 'H_C01_blockfreq_auto', [n]))
+    for m in (2, 4, 8):
+        for n in range(8, (24 if q else 64) + 1):
+            jobs.append(J('root', 'H_C01_poker', [n, m]))
+        for nb in range(1, (4 if q else 8) + 1):
+            jobs.append(J('root', 'H_C01_poker_bytes', [nb, m]))
+    for m in (2, 3, 5, 7):
+        for n in range(max(5, m), (16 if q else 32) + 1):
+            jobs.append(J('root', 'H_C01_overlapping', [n, m]))
+    for m in (2, 5, 7):
+        for n in range(1, (16 if q else 32) + 1):
+            jobs.append(J('root', 'H_C01_apen', [n, m]))
     return jobs
 
 
 PROPS = {
     'C01': {
         'jobs': c01_jobs,
-        'bounds': {'quick': 'monobit n<=24', 'thorough': 'monobit n<=64'},
+        'bounds': {'quick': 'monobit n<=24 bits / <=4 bytes; block frequency 2<=m<=n<=20; poker m in {2,4,8} n<=24 / <=4 bytes; overlapping m in {2,3,5,7} n<=16; approximate entropy m in {2,5,7} n<=16; selectM all int64 n',
+                   'thorough': 'monobit n<=64 / <=8 bytes; block frequency 2<=m<=n<=40; poker n<=64 / <=8 bytes; overlapping n<=32; approximate entropy n<=32; selectM all int64 n'},
         'outside': 'lengths above the bound; binary64 rounding of the tail; accuracy of erfc/igamc/log (uninterpreted)',
         'assumptions': ['float64 arithmetic of statistic tails modelled as exact real arithmetic; erfc/igamc/log uninterpreted (congruence + Lipschitz bridge 1e-9 on arguments)'],
     },
